@@ -139,7 +139,8 @@ Holds(e, name) ==
     [] name = "C03_InteriorKeptCtor" -> C03_InteriorKept(g, FieldOf(g, cf.phi), FieldOf(g, o.f_ctor))
     [] name = "C03_SolveRowsSatisfied" ->
          C03_RowsSatisfied(g, bc, MatOf(o.Mbc), FieldOf(g, o.Rbc), FieldOf(g, o.f_solve))
-    [] name = "C03_PlotProfile"   -> C03_PlotProfile(g, FieldOf(g, o.f_solve), FieldOf(g, o.profile))
+    [] name = "C03_PlotProfile"   -> /\ C03_PlotProfile(g, FieldOf(g, o.f_solve), FieldOf(g, o.profile))
+                                     /\ o.profile_pure
     [] name = "C01_OpenDiffusion" ->
          C01_OpenMatrix(g, V, MatOf(o.Mdiff), FieldOf(g, cf.phi), FMul(FaceFieldOf(g, cf.D), FaceFieldOf(g, o.grad)))
     [] name = "C01_OpenCentral" ->
